@@ -147,6 +147,9 @@ def eval_case(arg):
                 shutil.copytree(cpar, cseq2, dirs_exist_ok=True)
                 warm_seq = run_sub(root, targets, flags, cseq2)
                 warm_par = run_sub(root, targets, flags, cpar, n=n, spec=dict(sched, log=None))
+                # a chain that never saw a parallel build: what it gets wrong is incremental mode's business (C02), not C07's
+                pure_seq = run_sub(root, targets, flags, cseq)
+                pure_d = None if (histrun.crashed(pure_seq) or histrun.crashed(cold)) else compare_unordered(pure_seq, cold)
                 if not histrun.crashed(cold):
                     for name, r in (("warm-sequential-on-parallel-cache:" + phase, warm_seq), ("warm-parallel-on-parallel-cache:" + phase, warm_par)):
                         if r["err"] == "WORKER-STARTUP-TIMEOUT":
@@ -162,6 +165,8 @@ def eval_case(arg):
                                     # 'Cannot determine type of X' inside an import cycle depends on the order in which the
                                     # cycle's modules are processed; a warm run re-processes only the stale ones (the C02 finding)
                                     d = ("in-cycle-order-dependence",) + tuple(d[1:])
+                                elif pure_d and (pure_d[0], pure_d[2]) == (d[0], d[2]) and pure_d[1] == d[1]:
+                                    d = ("same-difference-in-a-purely-sequential-chain",) + tuple(d[1:])
                                 res["problems"].append((name,) + d)
             finally:
                 mypyrun.rmtree(cold_dir)
@@ -195,7 +200,7 @@ def judge(run: Run, res) -> None:
         run.nontriv(chash([res["seed"], res["n"], res["sched"]]))
     for where, klass, detail, codes in res["problems"]:
         case = {"seed": res["seed"], "nmods": res["nmods"], "n": res["n"], "sched": res["sched"], "store": res["store"], "st0": res["st0"], "ops": res["ops"]}
-        if klass in ("same-line-order", "advisory-note-placement", "in-cycle-order-dependence"):
+        if klass in ("same-line-order", "advisory-note-placement", "in-cycle-order-dependence", "same-difference-in-a-purely-sequential-chain"):
             sg = klass
         elif klass == "crash":
             from vp.props.c20 import crash_signature
